@@ -11,6 +11,8 @@ R-RETALIAS   (informational) the builders that return an operand itself are list
 """
 from __future__ import annotations
 
+from ..absdom import pattern_of
+
 import ast
 import warnings
 
@@ -575,6 +577,15 @@ def classify_sink(model, sf: SetFlow, f: FuncInfo, n, kind):
             consts = [v.value for v in js.values if isinstance(v, ast.Constant)]
             if consts and consts[0].startswith("[") and consts[-1].endswith("]"):
                 return "ok", "member list of a character class [...]: re ignores member order"
+            # f"{opening}{''.join(S)}]" with `opening = "[^" if negated else "["` bound once in the function
+            first = js.values[0] if js.values else None
+            if consts and consts[-1].endswith("]") and isinstance(first, ast.FormattedValue) and isinstance(first.value, ast.Name):
+                binds = [a.value for a in ast.walk(f.node) if isinstance(a, ast.Assign) and
+                         any(isinstance(t, ast.Name) and t.id == first.value.id for t in a.targets)]
+                opens = lambda x: (isinstance(x, ast.Constant) and isinstance(x.value, str) and x.value.startswith("[")) or \
+                    (isinstance(x, ast.IfExp) and opens(x.body) and opens(x.orelse))
+                if len(binds) == 1 and opens(binds[0]):
+                    return "ok", "member list of a character class (opening bracket bound to a local): re ignores member order"
         # the same template spelled as a concatenation: "[" + ... + "".join(S) + "]"  (first operand may be a
         # conditional expression between "[" and "[^")
         top = n
@@ -595,6 +606,19 @@ def classify_sink(model, sf: SetFlow, f: FuncInfo, n, kind):
             closes = lambda x: isinstance(x, ast.Constant) and isinstance(x.value, str) and x.value.endswith("]")
             if ops and opens(ops[0]) and closes(ops[-1]):
                 return "ok", "member list of a character class '[' + ... + ']': re ignores member order"
+        # the joined members are handed to a helper whose every return is such a template around that parameter
+        par = parents.get(n)
+        if isinstance(par, ast.Call) and n in par.args:
+            g = sf.callee(f, par)
+            if g is None and isinstance(par.func, ast.Attribute) and isinstance(par.func.value, ast.Name):
+                tgt = f.module.imports.get(par.func.value.id)
+                if tgt in model.modules:
+                    g = model.modules[tgt].functions.get(par.func.attr)
+            if g is not None:
+                ps = [p for p in g.params if p != "self"]
+                idx = par.args.index(n)
+                if idx < len(ps) and _returns_bracket_template(g.node, ps[idx]):
+                    return "ok", f"member list handed to `{g.node.name}`, which encloses it in '[' ... ']': re ignores member order"
         return "bad", "join of a set outside a character-class template"
     if kind in ("list", "tuple"):
         if _worklist_to_set(model, sf, f) or _local_worklist(model, f, n):
@@ -604,6 +628,38 @@ def classify_sink(model, sf: SetFlow, f: FuncInfo, n, kind):
             return "ok", "list(set) passed to a helper that returns sets only (confluence assumed)"
         return "bad", f"{kind}(set) fixes an arbitrary order"
     return "bad", f"{kind} observes the iteration order of a set"
+
+
+def _returns_bracket_template(fnode, pname):
+    """Every return of the function is '[' ... pname ... ']' (f-string or concatenation)."""
+    rets = [r for r in ast.walk(fnode) if isinstance(r, ast.Return)]
+    if not rets:
+        return False
+    for r in rets:
+        v = r.value
+        if isinstance(v, ast.JoinedStr):
+            consts = [x.value for x in v.values if isinstance(x, ast.Constant)]
+            uses = any(isinstance(x, ast.FormattedValue) and isinstance(x.value, ast.Name) and x.value.id == pname for x in v.values)
+            if not (consts and consts[0].startswith("[") and consts[-1].endswith("]") and uses):
+                return False
+        elif isinstance(v, ast.BinOp) and isinstance(v.op, ast.Add):
+            ops = []
+
+            def flat(x):
+                if isinstance(x, ast.BinOp) and isinstance(x.op, ast.Add):
+                    flat(x.left)
+                    flat(x.right)
+                else:
+                    ops.append(x)
+            flat(v)
+            opens = lambda x: (isinstance(x, ast.Constant) and isinstance(x.value, str) and x.value.startswith("[")) or \
+                (isinstance(x, ast.IfExp) and opens(x.body) and opens(x.orelse))
+            if not (ops and opens(ops[0]) and isinstance(ops[-1], ast.Constant) and str(ops[-1].value).endswith("]")
+                    and any(isinstance(x, ast.Name) and x.id == pname for x in ops)):
+                return False
+        else:
+            return False
+    return True
 
 
 def _local_worklist(model, f: FuncInfo, n):
@@ -723,7 +779,7 @@ def _history(ctx, model):
     def text(it, step):
         try:
             v = ev(it, step)
-            return v.fields.get("_Pregex__pattern") if isinstance(v, Obj) else repr(v)
+            return pattern_of(v) if isinstance(v, Obj) else repr(v)
         except PyRaise as e:
             return "!" + e.name
     shared = Interp(model, Hooks(), fuel=50_000_000)
@@ -770,7 +826,7 @@ class Q:
 
 
 def run(ctx, model: Model):
-    from ..absdom import cache_field
+    from ..absdom import cache_field, pattern_of
     CACHE_FIELD[0] = cache_field(model)
     ctx.explanation = (
         "Whole-package ownership/effect analysis on the syntax trees: (R-WRITEONCE) every attribute store, "
